@@ -21,12 +21,12 @@ from sensitivity import make_copy  # noqa: E402
 PY = "/venv/bin/python"
 
 
-def run(repo, findings):
+def run(repo, findings, pid="C16", runs="1500"):
     f = tempfile.NamedTemporaryFile("w", suffix=".json", delete=False, dir="/dev/shm")
     json.dump({"findings": findings}, f)
     f.close()
     try:
-        r = subprocess.run([PY, os.path.join(VERIF, "check.py"), "C16", "--no-evidence", "--runs", "1500"], capture_output=True, text=True,
+        r = subprocess.run([PY, os.path.join(VERIF, "check.py"), pid, "--no-evidence", "--runs", runs], capture_output=True, text=True,
                            env=dict(os.environ, VERIF_REPO=repo, VERIF_FINDINGS=f.name, PYTHONHASHSEED="0"))
     finally:
         os.unlink(f.name)
@@ -44,8 +44,10 @@ def main():
         for name, findings, want_rc, want_text in [
             ("unchanged tree, committed open findings: reported as KNOWN-FINDING, exit 0", OPEN, 0, "KNOWN-FINDING: property=C16 F1"),
             ("unchanged tree, F1 not listed: it is a violation", [], 1, "rule_evaluation_hits_the_recursion_limit"),
+            ("C13, unchanged tree, committed open findings: KNOWN-FINDING F2, exit 0", OPEN, 0, "KNOWN-FINDING: property=C13 F2"),
+            ("C13, unchanged tree, F2 not listed: it is a violation", [], 1, "copy_raised"),
         ]:
-            rc, out = run(clean, findings)
+            rc, out = run(clean, findings, *(("C13", "3200") if name.startswith("C13") else ()))
             ok = rc == want_rc and want_text in out and (want_rc == 1 or "VIOLATION" not in out)
             bad += not ok
             print(f"{'ok  ' if ok else 'FAIL'} {name}: rc={rc}")
